@@ -216,7 +216,8 @@ fn drop_flush_case(st: &mut Stats, seed: u64) {
     st.evaluations += 1;
     st.engine("SIM", 1);
     let mut rng = Rng64::new(mix(seed, 0xDF));
-    let cfg = [EpCfg { rwnd: 16, ..EpCfg::default() }, EpCfg { rwnd: *rng.pick(&[4u32, 16]), thr: 2, bind_buf: 4, ..EpCfg::default() }];
+    let inbound_bind = rng.chance(1, 3);
+    let cfg = [EpCfg { rwnd: 16, bind_buf: if inbound_bind { 4 } else { 0 }, ..EpCfg::default() }, EpCfg { rwnd: *rng.pick(&[4u32, 16]), thr: 2, bind_buf: 4, ..EpCfg::default() }];
     let sh = sim::Shared::new(mix(seed, 8), rng.below(4) as u8);
     let n_streams = rng.range(1, 4) as usize;
     let ops: Vec<(usize, u8, usize)> = (0..rng.range(2, 14)).map(|_| (rng.below(n_streams as u64) as usize, rng.below(8) as u8, *rng.pick(&[0usize, 1, 5, 64, 900]))).collect();
@@ -256,6 +257,14 @@ fn drop_flush_case(st: &mut Stats, seed: u64) {
                 let m = m1b.clone();
                 Some(tokio::spawn(async move {
                     let _ = tokio::time::timeout(std::time::Duration::from_millis(30), m.new_stream_channel(b"in.", 99)).await;
+                }))
+            } else {
+                None
+            };
+            let late_bind = if inbound_bind {
+                let m = m1b.clone();
+                Some(tokio::spawn(async move {
+                    let _ = tokio::time::timeout(std::time::Duration::from_millis(30), m.request_bind(b"in-bind", 98, penguin_mux::frame::BindType::Datagram)).await;
                 }))
             } else {
                 None
@@ -317,6 +326,9 @@ fn drop_flush_case(st: &mut Stats, seed: u64) {
             if let Some(h) = late_open {
                 h.await.ok();
             }
+            if let Some(h) = late_bind {
+                h.await.ok();
+            }
             // streams still held are dropped after the mux: nothing is demanded for them
             (expected, streams.into_iter().flatten().map(|s| s.verif_flow_id()).collect::<Vec<u32>>())
         });
@@ -334,7 +346,7 @@ fn drop_flush_case(st: &mut Stats, seed: u64) {
     match end {
         sim::RunEnd::Finished(Some((expected, _held))) => {
             st.target("drop_flush_runs", 1);
-            if inbound_dgrams > 0 || inbound_connect {
+            if inbound_dgrams > 0 || inbound_connect || inbound_bind {
                 st.target("drop_flush_runs_with_inbound_traffic", 1);
             }
             st.target("frames_queued_before_drop", expected.len() as u64);
